@@ -19,6 +19,7 @@ import (
 	"github.com/sarchlab/akita/v4/tracing"
 	"github.com/sarchlab/mgpusim/v4/amd/driver"
 	"github.com/sarchlab/mgpusim/v4/amd/insts"
+	"github.com/sarchlab/mgpusim/v4/amd/kernels"
 	"github.com/sarchlab/mgpusim/v4/amd/protocol"
 )
 
@@ -509,6 +510,17 @@ func (r *Responder) runKernel(req *protocol.LaunchKernelReq) {
 		return
 	}
 	for i := uint32(0); i < args.N; i++ {
+		// a unified multi-GPU launch gives every GPU the whole grid and a filter
+		// that selects its work-groups: work-item i belongs to work-group i / WG size
+		if req.WGFilter != nil {
+			wgs := uint32(req.Packet.WorkgroupSizeX)
+			if wgs == 0 {
+				wgs = 1
+			}
+			if !req.WGFilter(req.Packet, &kernels.WorkGroup{IDX: int(i / wgs)}) {
+				continue
+			}
+		}
 		p, ok := r.translate(req.PID, uint64(args.Buf)+uint64(i))
 		if !ok {
 			fail("kernel-sees-unmapped-buffer", "buffer address %#x not mapped", uint64(args.Buf)+uint64(i))
